@@ -123,7 +123,7 @@ def _local_fn(facts, name):
     return None
 
 
-COMBINATORS = ('Option::map_or', 'Option::map_or_else', 'Option::is_some_and', 'Option::is_none_or', 'bool::then', 'bool::then_some', 'Option::unwrap_or_else', 'Option::unwrap_or', 'Result::unwrap_or', 'Result::unwrap_or_else')
+COMBINATORS = ('Option::or_else', 'Option::map_or', 'Option::map_or_else', 'Option::is_some_and', 'Option::is_none_or', 'bool::then', 'bool::then_some', 'Option::unwrap_or_else', 'Option::unwrap_or', 'Result::unwrap_or', 'Result::unwrap_or_else')
 _inl_cache = {}
 
 
@@ -184,6 +184,10 @@ def _exp(facts, d, depth, keep, memo):
             v = closure_apply(facts, args[2], (('unwrap', args[0]),))
             if v is not None:
                 out = ('phi', args[1], _exp(facts, v, depth + 1, keep, memo) if depth < MAX_DEPTH else v)      # the default, or the closure's value on the content
+        elif name == 'Option::or_else' and len(args) == 2 and isinstance(args[1], tuple) and args[1] and args[1][0] == 'closure':
+            v = closure_apply(facts, args[1], ())
+            if v is not None:
+                out = ('phi', args[0], _exp(facts, v, depth + 1, keep, memo) if depth < MAX_DEPTH else v)      # the option itself, or the closure's option when it is None
         elif name in ('Option::unwrap_or', 'Result::unwrap_or') and len(args) == 2 and not any(kk in name for kk in keep):
             out = ('phi', ('unwrap', args[0]), args[1])           # the contained value, or the default
         elif name in ('Option::unwrap_or_else', 'Result::unwrap_or_else') and len(args) == 2 and isinstance(args[1], tuple) and args[1] and args[1][0] == 'closure' \
